@@ -563,6 +563,9 @@ class C13(Base):
 
 VALID_METERS = [[4, 4], [3, 4], [2, 4], [6, 8], [12, 8], [5, 4], [7, 8], [2, 2], [3, 8], [9, 8], [1, 1], [4, 16], [1, 4], [3, 2], [5, 16], [2, 1], [1, 8], [1, 16], [3, 32], [2, 32], [1, 32], [4, 64]]
 INVALID_METERS = [[4, 0], [4, 3], [4, 5], [4, 6], [3, 12], [4, 7], [2, 100], [4, 0.5], [3, 1.5], [4, 2.5], [4, 0.25]]
+# units next to powers of two, negative units, large units
+NEAR_POW2 = [[4, u] for k in range(1, 12) for u in (2 ** k - 1, 2 ** k + 1, 2 ** k - 2, 2 ** k + 2) if u > 0 and u & (u - 1)] + [[4, -1], [3, -2], [4, -4], [2, -8], [4, -3], [4, 96], [4, 48], [4, 1000], [3, 24]]
+BIG_VALID = [[3, 128], [5, 256], [2, 1024], [7, 2048]]
 C13_NAMES = ["C", "E", "G", "A", "F#", "Bb", "D", "B#", "Cb"]
 
 
@@ -633,9 +636,9 @@ def gen_c13(rng, tier):
         b = rng.randrange(nb)
         r = rng.random()
         if mode == "meters" and r < 0.5:
-            ops.append({"op": "set_meter", "bar": b, "meter": rng.choice(VALID_METERS + INVALID_METERS + [[0, 0]])})
+            ops.append({"op": "set_meter", "bar": b, "meter": rng.choice(VALID_METERS + INVALID_METERS + [[0, 0]] + BIG_VALID) if rng.random() < 0.6 else rng.choice(NEAR_POW2)})
         elif mode == "meters" and r < 0.6:
-            ops.append({"op": "bar", "key": "C", "meter": rng.choice(VALID_METERS + INVALID_METERS)})
+            ops.append({"op": "bar", "key": "C", "meter": rng.choice(VALID_METERS + INVALID_METERS + BIG_VALID) if rng.random() < 0.6 else rng.choice(NEAR_POW2)})
         elif mode == "edit" and r < 0.25:
             ops.append({"op": "setitem", "bar": b, "index": rng.randrange(8), "content": gen_form(rng), "neg": rng.random() < 0.4})
         elif mode == "edit" and r < 0.5:
@@ -673,6 +676,39 @@ def shorthand_size(sh):
         i += 1
     d = int(sh[i:])
     return d, DEG[d - 1] + acc
+
+
+FIFTHS_SHARP = ["F", "C", "G", "D", "A", "E", "B"]
+KEY_SIG = {}
+for _i, (_maj, _min) in enumerate(zip(world.MAJOR_KEYS, world.MINOR_KEYS)):
+    KEY_SIG[_maj] = _i - 7
+    KEY_SIG[_min] = _i - 7
+
+
+def key_notes(key):
+    """the seven notes of a natural key, from the circle of fifths (own model)"""
+    n = KEY_SIG[key]
+    altered = set(FIFTHS_SHARP[:n]) if n > 0 else set(list(reversed(FIFTHS_SHARP))[: -n])
+    sym = "#" if n > 0 else "b"
+    start = LET.index(key[0].upper())
+    out = []
+    for i in range(7):
+        L = LET[(start + i) % 7]
+        out.append(L + (sym if L in altered else ""))
+    return out
+
+
+def diatonic_chord(numeral, key):
+    """plain roman numerals I..VII (any case) with optional 7: stacked thirds in the key; None if not that simple"""
+    import re
+
+    m = re.match(r"^(VII|VI|IV|V|III|II|I)(7?)$", numeral.upper())
+    if not m or key not in KEY_SIG:
+        return None
+    deg = ["I", "II", "III", "IV", "V", "VI", "VII"].index(m.group(1))
+    ns = key_notes(key)
+    k = 4 if m.group(2) else 3
+    return [ns[(deg + 2 * j) % 7] for j in range(k)]
 
 
 class MNC(object):
@@ -975,6 +1011,13 @@ class C12(Base):
                     names = pc_[0] if pc_ else None
                 except Exception:
                     names = None
+                own = diatonic_chord(op["sh"], op.get("key", "C"))
+                if own is not None:
+                    # for plain numerals the notes of the chord are judged against an own model of the key, not the library's
+                    self.probes["progression_checked_against_own_key_model"] += 1
+                    if names is not None and list(names) != own:
+                        self.fail("C12.constructors", "numeral %r in key %r: the chord handed to the container is %s, stacked thirds in that key are %s" % (op["sh"], op.get("key", "C"), names, own), kind="progression", theory=True)
+                    names = own
                 r = (m.obj.from_progression if op.get("alias") else m.obj.from_progression_shorthand)(op["sh"], op.get("key", "C"))
             exc = None
         except Exception as e:
@@ -2276,7 +2319,7 @@ DESCR = {
     "C12": {
         "rule": "Each run is one seeded history on up to three NoteContainers: every addition form (Note object, bare name, name+octave, 'Name-octave', lists mixing those, [name, octave(, dynamics)] rows, another container, '+', the constructor), every removal form (name, name+octave, Note, lists, '-'), empty, the chord/interval/progression shorthand constructors, malformed additions, and queries (len, in, ==, get_note_names, the four consonance predicates with both flag values), against an insertion-ordered pitch->spelling set model. Non-trivial = at least two operations applied. Distinct = distinct run shape.",
         "clauses": ["C12.content", "C12.sorted_unique", "C12.remove_name", "C12.remove_octave", "C12.voicing", "C12.constructors", "C12.protocol", "C12.consonance"],
-        "probes": ["voicing_ambiguous_spelling", "duplicate_pitch_ignored", "remove_name_in_several_octaves", "remove_octave_spares_other_octave", "equality_of_equal_containers", "consonance_on_three_or_more", "model_resync"],
+        "probes": ["voicing_ambiguous_spelling", "duplicate_pitch_ignored", "remove_name_in_several_octaves", "remove_octave_spares_other_octave", "equality_of_equal_containers", "consonance_on_three_or_more", "progression_checked_against_own_key_model", "spelling_differs_from_model", "model_resync"],
         "assumptions": ["voicing of a bare name is predicted exactly only when both the top note and the new name are spelled inside their octave; for octave-wrapping spellings (B#, Cb, ...) only the set invariants are judged and the model follows the observed octave", "chord/progression constructors are compared with the names the theory functions return for the same shorthand (those functions are C06/C08's subject)"],
     },
     "C13": {
